@@ -3324,22 +3324,18 @@ class FocusedSeq(Construct):
             def {fname}(obj, io, this):
                 this = Container(_ = this, _params = this['_params'], _root = None, _parsing = False, _building = True, _sizing = False, _subcons = None, _io = io, _index = this.get('_index', None))
                 this['_root'] = this['_'].get('_root', this)
-                try:
-                    parsebuildfrom = {repr(self.parsebuildfrom)}
-                    this[parsebuildfrom] = obj
-                    finalobj = obj
+                parsebuildfrom = {repr(self.parsebuildfrom)}
+                this[parsebuildfrom] = obj
+                finalobj = obj
         """
         for sc in self.subcons:
             block += f"""
-                    {f'obj = finalobj if {repr(sc.name)} == parsebuildfrom else None'}
-                    {f'buildret = '}{sc._compilebuild(code)}
-                    {f'this[{repr(sc.name)}] = buildret' if sc.name else ''}
-                    {f'if {repr(sc.name)} == parsebuildfrom: finalret = buildret'}
+                {f'obj = finalobj if {repr(sc.name)} == parsebuildfrom else None'}
+                {f'buildret = '}{sc._compilebuild(code)}
+                {f'this[{repr(sc.name)}] = buildret' if sc.name else ''}
+                {f'if {repr(sc.name)} == parsebuildfrom: finalret = buildret'}
             """
         block += f"""
-                    pass
-                except StopFieldError:
-                    pass
                 return finalret
         """
         code.append(block)
